@@ -260,7 +260,7 @@ func TestBoundedGraphalg(t *testing.T) {
 	if v, err := strconv.Atoi(os.Getenv("VERIF_BOUND_EXTRA")); err == nil && v >= 0 {
 		extra = v
 	}
-	seed := uint64(88172645463325252)
+	seed := verifSeedC18(88172645463325252)
 	next := func(m int) int {
 		seed ^= seed << 13
 		seed ^= seed >> 7
@@ -288,4 +288,16 @@ func TestBoundedGraphalg(t *testing.T) {
 		t.Fatalf("%d failures", nfail)
 	}
 	fmt.Printf("BOUNDED-OK graphs=%d cases=%d maxnodes=%d extra=%d\n", graphs, cases, maxN, extra)
+}
+
+// verifSeedC18 mixes VERIF_SEED (if set) into a generator's initial state, so that
+// different seeds explore different pseudo-random inputs; 0 keeps the default.
+func verifSeedC18(s uint64) uint64 {
+	if v, err := strconv.ParseUint(os.Getenv("VERIF_SEED"), 10, 64); err == nil && v != 0 {
+		s ^= v * 0x9E3779B97F4A7C15
+		if s == 0 {
+			s = 0x9E3779B97F4A7C15
+		}
+	}
+	return s
 }
